@@ -81,11 +81,15 @@ func main() {
 				hm := hashModes[j.idx%len(hashModes)]
 				g := kvlab.NewGen(r.Rand(caseName))
 				g.ImportLeases = true
+				if j.idx%4 == 3 {
+					g.BulkMax = 513 // Import / Export / RemoveKeys of whole key ranges (batching seams)
+				}
 				g.HashPoints = []uint64{0, kvlab.HashSpace - 1}
 				for _, k := range g.Keys {
 					g.HashPoints = append(g.HashPoints, hm.fn(k))
 				}
 				ops := g.Sequence(seqLen)
+				r.Count("operations_with_a_bulk_key_set(15..513 keys)", int64(g.BulkOps))
 				for _, be := range kvlab.Backends {
 					st, err := kvlab.Open(be, "", hm.fn)
 					if err != nil {
